@@ -62,8 +62,11 @@ def handle (l : Line) : IO Unit := do
     IO.println s!"obs {id} cls={c} toks={if toks.isEmpty then "-" else ",".intercalate toks}"
     -- spec: binary exactly when B, MB or bytes appears as a numerator component
     let comps := Unit.Parse.tokens u
-    let sb := comps.any fun t => !t.denom && (t.tok == Bytes.ofString "B" || t.tok == Bytes.ofString "MB" || t.tok == Bytes.ofString "bytes")
-    IO.println s!"spec {id} cls={if sb then 1 else 0}"
+    let isBin := fun (cs : List Unit.Parse.Tok) => cs.any fun t => !t.denom && (t.tok == Bytes.ofString "B" || t.tok == Bytes.ofString "MB" || t.tok == Bytes.ofString "bytes")
+    let sb := isBin comps
+    -- the class of the same string after Tidy has seen it is the same; the tidied unit is judged on its own tokens
+    let tb := isBin (Unit.Parse.tokens ((l.bytes? "tidied").getD []))
+    IO.println s!"spec {id} cls={if sb then 1 else 0} after={if sb then 1 else 0} tidied={if tb then 1 else 0}"
   | _ => pure ()
 
 end Driver.C10
